@@ -227,6 +227,22 @@ func sweep(kind string, stride uint64, printedStride uint64, f func(v uint32, pr
 		}
 		count.Add(1)
 	}
+	// the printed form near every whole degree (where a decimal carry happens)
+	if printedStride != 0 {
+		for deg := -180; deg <= 180; deg++ {
+			center := int64(deg) * (1 << 31) / 180
+			for d := int64(-80); d <= 80; d++ {
+				v := center + d
+				if v < -(1<<31) || v > 1<<31-1 {
+					continue
+				}
+				if msg := f(uint32(int32(v)), true); msg != "" {
+					report(uint32(int32(v)), msg)
+				}
+				count.Add(1)
+			}
+		}
+	}
 	if best != nil {
 		rec.Fail(kind, "", bestMsg, *best)
 	}
